@@ -1323,3 +1323,27 @@ Proof.
     destruct (wr_frame (mem2 s) _ doff n H2 Ln) as (A & B & C & D).
     repeat split; try assumption; cbn [encbuf decbuf]; lia.
 Qed.
+
+(* ================= ownership of the argument buffers ================= *)
+Lemma owner_semantics BC KS c k iv cr ivnow o :
+  cr_ok (cid_bs c) cr -> cid_bs c <= length ivnow ->
+  exists cr', istep_env BC KS (IBlock c k iv cr) ivnow o =
+              Some (cfb_op (cid_bs c) (BC c k) ivnow o, IBlock c k iv cr') /\ cr_ok (cid_bs c) cr'.
+Proof.
+  intros Hc Hiv. cbn [istep_env].
+  destruct (cstep_spec (cid_bs c) (BC c k) ivnow cr o (cid_bs_supported c) Hiv Hc) as (cr' & H & Hc').
+  rewrite H. exists cr'. split; [reflexivity | exact Hc'].
+Qed.
+
+Lemma owner_unchanged_iv BC KS i o :
+  istep_env BC KS i (acc_iv i) o = istep BC KS i o.
+Proof. destruct i as [c k iv cr | k n |]; reflexivity. Qed.
+
+Lemma owner_iv_refuted :
+  exists BC KS name key iv ivnow m i,
+    new_crypt name key iv = Some i /\ length ivnow = length iv /\
+    option_map fst (istep_env BC KS i ivnow (Enc m)) <> option_map fst (istep BC KS i (Enc m)).
+Proof.
+  exists (fun _ _ b => b), (fun _ _ _ => 0%N), name_aes128, (repeat 1%N 16), (repeat 0%N 16), (repeat 1%N 16), [0%N].
+  eexists. split; [reflexivity|]. split; [reflexivity|]. vm_compute. discriminate.
+Qed.
